@@ -1137,7 +1137,7 @@ pub fn t_inherit(a: &[i64]) -> Val {
 
 // ------------------------------------------------------------------------------------------------
 // t_items: item-level collisions (C14).
-// a = [ps, dup_type, dup_kind, vft_clash, ext_clash, second_module, ext_vft_clash]   (ext_vft_clash needs T to own a vftable: set vft_own)
+// a = [ps, dup_type, dup_kind, vft_clash, ext_clash, second_module, ext_vft_clash, backend pattern, empty_vftable_block]   (ext_vft_clash needs T to own a vftable: set vft_own)
 //  dup_type: module m declares `T` twice (second one: dup_kind 0 => another type with a u64 field, 1 => an enum)
 //  vft_clash: `T` has a vftable block and the user also declares a type named `TVftable`
 //  ext_clash: an extern type named `T` as well
@@ -1145,6 +1145,10 @@ pub fn t_inherit(a: &[i64]) -> Val {
 pub fn t_items(a: &[i64]) -> Val {
     let ps = a[0] as usize;
     let mut t_stmts: Vec<TS> = vec![];
+    if a.len() > 8 && a[8] != 0 && a[3] == 0 && a[6] == 0 {
+        // a[8]: T declares a vftable block that lists no functions (the generated table type exists all the same)
+        t_stmts.push(TS::vftable(Vec::<F>::new()));
+    }
     if a[3] != 0 || a[6] != 0 {
         t_stmts.push(TS::vftable([F::new((V::Public, "f"), [Ar::ConstSelf])]));
     }
@@ -1189,6 +1193,8 @@ pub fn t_items(a: &[i64]) -> Val {
         _ => vec![],
     };
     m = m.with_backends(bks);
+    // module m also has an extern value: its accessor belongs between the items and the epilogue texts
+    m = m.with_extern_values([EV::new(V::Public, "ev", T::ident("u32"), [A::integer_fn("address", 64)])]);
     let mut st = SemanticState::new(ps);
     if let Err(e) = st.add_module(&m, &IP::from("m")) {
         return outcome(Err(e));
